@@ -344,3 +344,77 @@ Definition src_NadaType_class_to_mir : list string :=  [
 
 Definition src_NadaType_bool : list string :=  [
    "raise NotImplementedError"].
+
+Definition src_compile_script : list string :=  [
+   "script_dir = os.path.dirname(script_path)"; 
+   "sys.path.insert(0, script_dir)"; 
+   "script_name = os.path.basename(script_path)"; 
+   "if script_name.endswith('.py'): ;     script_name = script_name[:-3]"; 
+   "timer.start('nada_dsl.compile.compile.__import__')"; 
+   "spec = importlib.util.spec_from_file_location(script_name, script_path)"; 
+   "script = importlib.util.module_from_spec(spec)"; 
+   "spec.loader.exec_module(script)"; 
+   "timer.stop('nada_dsl.compile.compile.__import__')"; 
+   "try: ;     main = getattr(script, 'nada_main') ; except Exception as exc: ;     raise MissingEntryPointError(""'nada_dsl' entrypoint function is missing in program "" + script_name) from exc"; 
+   "outputs = main()"; 
+   "compile_output = nada_compile(outputs)"; 
+   "return CompilerOutput(compile_output)"].
+
+Definition src_compile_string : list string :=  [
+   "decoded_program = base64.b64decode(script).decode('utf-8')"; 
+   "temp_name = 'temp_program'"; 
+   "spec = importlib.util.spec_from_loader(temp_name, loader=None)"; 
+   "module = importlib.util.module_from_spec(spec)"; 
+   "exec(decoded_program, module.__dict__)"; 
+   "sys.modules[temp_name] = module"; 
+   "globals()[temp_name] = module"; 
+   "outputs = module.nada_main()"; 
+   "compile_output = nada_compile(outputs)"; 
+   "return CompilerOutput(compile_output)"].
+
+Definition src_print_output : list string :=  [
+   "output_json = {'result': 'Success', 'mir': out.mir}"; 
+   "print(json.dumps(output_json))"].
+
+Definition src_compile_main : list string :=  [
+   "try: ;     if os.environ.get('NADA_TIMER'): ;         timer.enable() ;     args_length = len(sys.argv) ;     if args_length < 2: ;         raise MissingProgramArgumentError('expected program as argument') ;     if args_length == 2: ;         output = compile_script(sys.argv[1]) ;         print_output(output) ;     if args_length == 3 and sys.argv[1] == '-s': ;         output = compile_string(sys.argv[2]) ;         print_output(output) ; except Exception as ex: ;     output = {'result': 'Failure', 'reason': str(ex), 'traceback': str(traceback.format_exc())} ;     print(json.dumps(output)) ; finally: ;     if timer.is_enabled(): ;         with open('nada-timers.json', 'w', encoding='utf-8') as fd: ;             json.dump(timer.report(), fd)"].
+
+Definition src_Clock_start : list string :=  [].
+
+Definition src_Clock_stop : list string :=  [].
+
+Definition src_Clock_report : list string :=  [
+   "return {}"].
+
+Definition src_DefaultClock_init : list string :=  [
+   "self.timers = {}"; 
+   "self.running = {}"].
+
+Definition src_DefaultClock_start : list string :=  [
+   "if timer_name in self.running: ;     raise TimerError(f'timer {timer_name} already running.')"; 
+   "self.running[timer_name] = time.perf_counter()"].
+
+Definition src_DefaultClock_stop : list string :=  [
+   "if timer_name not in self.running: ;     raise TimerError(f'timer {timer_name} is not running, use start() to start it.')"; 
+   "self.timers[timer_name] = time.perf_counter() - self.running.pop(timer_name)"].
+
+Definition src_DefaultClock_report : list string :=  [
+   "return self.timers"].
+
+Definition src_Timer_init : list string :=  [
+   "self.clock = Clock()"].
+
+Definition src_Timer_enable : list string :=  [
+   "self.clock = DefaultClock()"].
+
+Definition src_Timer_is_enabled : list string :=  [
+   "return isinstance(self.clock, DefaultClock)"].
+
+Definition src_Timer_start : list string :=  [
+   "self.clock.start(timer_name)"].
+
+Definition src_Timer_stop : list string :=  [
+   "self.clock.stop(timer_name)"].
+
+Definition src_Timer_report : list string :=  [
+   "return self.clock.report()"].
